@@ -387,6 +387,10 @@ func checkC14(p *Program, r *Report) {
 	// with mask(n&63) unguarded, or the leaf ordinals of the getters and of Get shift together with it
 	r.Explanation += " (trim) bitmap words assembled by hand under Unmarshal are not trimmed with an unguarded mask(n&63)."
 	checkMaskTrim(p, r, "C14.trim", underUnmarshal(p))
+	// "including loaded tries": every compatible version is routed to the loader family of its layout, so
+	// that Get and the typed getters read the same leaf array after a load (rule shared with C06)
+	r.Explanation += " (load-routing) each compatible version is routed to the loader and fix-ups of its layout (rule shared with C06)."
+	borrowRule(p, r, checkC06, "C06.routing", "C14.load-routing")
 }
 
 // abbreviate shortens long terms for messages by replacing the ordinal.
